@@ -401,4 +401,113 @@ def run (s : State) : List Op → State
 /-- states reachable from the empty chain state -/
 def Reachable (s : State) : Prop := ∃ ops, s = run State.init ops
 
+/-! ### transactions that carry SEVERAL messages
+
+`baseapp.runTx`: the ante chain runs ONCE, on the state before the transaction, over ALL messages of the
+transaction (x/auth: every declared signer of every message has an account and signed;
+`VerifyAuthorisedSignatureDecorator`: a `for` loop over `tx.GetMsgs()` — flattened through authz `MsgExec`
+wrappers by `ownershipScope` — that `continue`s after a message without metadata or signed by its creator and
+returns an error at the first message that is neither creator-signed nor signed by a fee-grantee of its
+creator).  Only when the ante chain accepted are the messages handed to their msg-server handlers, in order, on
+ONE cached store that is written back only when every handler succeeded.
+
+A message is an `Op` of the user-message kinds (`Op.isMsg`); its own `signer` field is the `Metadata.Signers`
+entry the message declares (for `send` / `grant` the sender / granter).  The ownership check of message `i`
+therefore does NOT see what messages `< i` of the same transaction wrote (a fee grant issued by message 1 does
+not authorise message 2), and no message is exempt because another message of the transaction was in order.
+
+A message wrapped in `authz.MsgExec{grantee = the message's declared signer}` is checked by the decorator like
+a top-level one (`ownershipScope`) and dispatched by authz without any authorisation (the grantee's own message),
+i.e. it behaves exactly like the bare message; the line protocol marks the wrapping, the model has no separate
+constructor for it. -/
+
+/-- the kinds of `Op` that are messages a user can put into a transaction -/
+def Op.isMsg : Op → Bool
+  | .create _ _ _ _ _ _ _ => true
+  | .activate _ _ _ => true
+  | .auth _ _ => true
+  | .legacy _ _ => true
+  | .send _ _ _ _ _ => true
+  | .grant _ _ => true
+  | _ => false
+
+/-- the verdict of the ante chain on ONE message, on the state `s` before the transaction -/
+def anteOk (s : State) : Op → Bool
+  | .create sg cr _ _ _ _ _ => authorised s sg cr
+  | .activate sg cr _ => authorisedStr s sg cr
+  | .auth sg cr => authorisedStr s sg cr
+  | .legacy sg cr => authorised s sg cr
+  | .send a _ _ _ _ => s.acct a != .none
+  | .grant g _ => s.acct g != .none
+  | _ => false
+
+/-- `RegisterLightNodeClient` → `CreateLightNodeClientAccount`: the msg-server handler ALONE (the part of
+`activate` after the ante check; `activate_eq_ante_then_handler` in Props/C18.lean) -/
+def registerH (s : State) (creator : AddrStr) (now : Nat) : State × Res :=
+  match lookupLic s.lics creator with
+  | none => (s, .rejected)                                      -- ErrNoLicense
+  | some l =>
+    if s.acct creator.addr ≠ .base then (s, .rejected) else     -- ErrNoAccount
+    if l.amount = 0 then (s, .rejected) else                    -- BaseVestingAccount.Validate
+    if s.escrow l.denom < l.amount then (s, .rejected) else     -- module account cannot pay
+    ({ s with acct := updA s.acct creator.addr (.vesting l.amount l.denom now (addMonths now l.months)),
+              bal := upd2 s.bal creator.addr l.denom (s.bal creator.addr l.denom + l.amount),
+              escrow := upd s.escrow l.denom (s.escrow l.denom - l.amount),
+              lics := eraseLic s.lics creator,
+              clients := if s.clients.contains creator then s.clients else s.clients ++ [creator] }, .ok)
+
+/-- the msg-server handler of one message WITHOUT the ante chain (what the msg router runs once the ante chain
+accepted the transaction).  The handlers never look at the signer: they trust `Metadata.Creator`.
+(`send` / `grant`: the only ante-level condition of the single-message model, "the sender has an account", is
+re-evaluated harmlessly — accounts never disappear.) -/
+def handle (s : State) : Op → State × Res
+  | .create _ cr cl amt d m now =>
+    match createLic s cr cl amt d m now with
+    | none => (s, .rejected)
+    | some s' => (s', .ok)
+  | .activate _ cr now => registerH s cr now
+  | .auth _ cr => if s.clients.contains cr then (s, .ok) else (s, .rejected)
+  | .legacy _ _ =>
+    match s.feegranter with
+    | none => (s, .ok)
+    | some fg => ({ s with clients := s.clients ++ legacyNew fg s.lics s.clients s.grants }, .ok)
+  | .send a b d amt now => send s a b d amt now
+  | .grant g e => grant s g e
+  | _ => (s, .rejected)
+
+/-- the handlers of the messages in order on one cached store; `none`: some handler failed (nothing is written) -/
+def execAll (s : State) : List Op → Option State
+  | [] => some s
+  | m :: rest => if (handle s m).2 = .ok then execAll (handle s m).1 rest else none
+
+/-- one transaction with the messages `msgs` (all executed at the same block time, which each message carries) -/
+def tx (s : State) (msgs : List Op) : State × Res :=
+  if msgs.isEmpty then (s, .rejected) else                       -- "must contain at least one message"
+  if msgs.all (anteOk s) = false then (s, .rejected) else        -- the ante chain, on the state BEFORE the transaction
+  match execAll s msgs with
+  | none => (s, .rejected)                                       -- a handler failed: the cached store is dropped
+  | some s' => (s', .ok)
+
+/-- an event of a chain history: a single operation (a one-message transaction, an attested sale, a governance
+handler, test set-up) or a transaction with several messages -/
+inductive Ev where
+  | op (o : Op)
+  | tx (msgs : List Op)
+deriving Repr
+
+def stepEv (s : State) : Ev → State × Res
+  | .op o => step s o
+  | .tx msgs => tx s msgs
+
+def runEv (s : State) : List Ev → State
+  | [] => s
+  | e :: es => runEv (stepEv s e).1 es
+
+/-- the single operations a history with multi-message transactions amounts to: the messages of every ACCEPTED
+transaction in order (a rejected transaction contributes nothing); `runEv_eq_run_flatten` in Props/C18.lean -/
+def flatten (s : State) : List Ev → List Op
+  | [] => []
+  | .op o :: es => o :: flatten (step s o).1 es
+  | .tx msgs :: es => if (tx s msgs).2 = .ok then msgs ++ flatten (tx s msgs).1 es else flatten s es
+
 end Paloma.LightNode
